@@ -12,16 +12,55 @@ CONSTANTS
   WithBarrierOnly, WithFinalize, WithDrop, WithMany, WithWeak, WithUnlink,
   FaultAts      \* set of trace-call indices at which a trace panic may be injected ({} = no faults)
 
-VARIABLES h, hist
+VARIABLES h, hist,
+          pcl      \* history: the coverage class of the previous transition (see EmitClasses)
 
-vars == <<h, hist>>
+vars == <<h, hist, pcl>>
 \* VIEW: neither the history nor (in the safety configurations, where an explicit budget decides
 \* how far a call runs) the metric counters are part of the state
 vw == [h EXCEPT !.mt = 0, !.pc = 0]
 
-Init == h = EmptyHeap /\ hist = <<>>
+Init == h = EmptyHeap /\ hist = <<>> /\ pcl = <<>>
 
-Do(s2, op) == h' = s2 /\ hist' = Append(hist, op)
+\* ---------------------------------------------------------------- helpers used by the emitters
+RECURSIVE Chain(_, _, _)
+Chain(s, o, n) == IF o = NoObj \/ n = 0 THEN <<>> ELSE <<o>> \o Chain(s, s.next[o], n - 1)
+ListSeq(s) == Chain(s, s.head, Cardinality(Obj) + 1)
+
+IndexOf(q, x) == IF x \in Range(q) THEN CHOOSE i \in DOMAIN q : q[i] = x ELSE Len(q) + 1
+
+\* the objects the running sweep has not looked at yet
+Unswept(s) == LET q == ListSeq(s) IN
+  IF s.phase = "Sweep" /\ s.sweep # NoObj THEN {q[i] : i \in IndexOf(q, s.sweep)..Len(q)} ELSE {}
+
+\* coverage class of a transition
+Col(s, o) == IF o = NoObj THEN "-" ELSE IF ~s.alive[o] THEN "fresh" ELSE s.color[o]
+PosOf(s, o) == IF s.phase # "Sweep" \/ o = NoObj THEN "-" ELSE IF o \in Unswept(s) THEN "unswept" ELSE "swept"
+Fld(op, f) == IF f \in DOMAIN op THEN op[f] ELSE NoObj
+ClassOf(s, op, s2) ==
+  LET p == Fld(op, "p")  c == IF "c" \in DOMAIN op THEN op.c ELSE IF "t" \in DOMAIN op THEN op.t ELSE Fld(op, "o") IN
+  IF op.op \in {"new_set", "remove_set", "stash", "clone_handle", "drop_handle"}
+  THEN LET d == IF "d" \in DOMAIN op THEN op.d
+                ELSE IF "hid" \in DOMAIN op THEN s.handles[op.hid].set ELSE NoObj
+           hv == "hid" \in DOMAIN op /\ op.op # "stash" /\ HandleValid(s, s.handles[op.hid])
+       IN <<op.op, ObsPhase(s), Col(s, d), Col(s, Fld(op, "c")), PosOf(s, d), PosOf(s, Fld(op, "c")), hv,
+            IF d # NoObj /\ s.alive[d] THEN <<s.freeHead[d] # 0, Len(s.slots[d]),
+                                               IF hv THEN s.slots[d][s.handles[op.hid].idx].rc ELSE 0>> ELSE <<>>,
+            d # NoObj /\ d \in Range(s.rootD), s2.grayAgain # s.grayAgain>>
+  ELSE IF op.op \in {"call", "start_sweeping", "finalize", "drop_arena", "failed_map_root", "failed_new"}
+  THEN <<op.op, Fld(op, "kind"), Fld(op, "g"), Fld(op, "cont"), Fld(op, "fault"), ObsPhase(s), ObsPhase(s2),
+         IF op.op = "call" THEN CallSig(s, op.kind, op.b, op.g, op.cont, IF "fault" \in DOMAIN op THEN op.fault ELSE NoFaultRec)
+         ELSE IF op.op \in {"start_sweeping", "finalize"} /\ s.phase # "Sweep"
+              THEN CallSig(s, "finish_marking", 0, "P1", FALSE, NoFaultRec) ELSE <<>>,
+         Count(s) - Count(s2) > 0, s.gray # <<>>, s.grayAgain # <<>>, s.rootNT,
+         IF op.op = "finalize" THEN <<Col(s2, op.t), op.t # NoObj>> ELSE <<>>,
+         Fld(op, "n"), Fld(op, "mode") >>
+  ELSE <<op.op, Fld(op, "path"), Fld(op, "via"), ObsPhase(s), Col(s, p), Col(s, c),
+         IF p = NoObj THEN "-" ELSE s.kind[p], PosOf(s, p), PosOf(s, c), s2.gray # s.gray \/ s2.grayAgain # s.grayAgain,
+         Fld(op, "panic")>>
+
+
+Do(s2, op) == h' = s2 /\ hist' = Append(hist, op) /\ pcl' = ClassOf(h, op, s2)
 
 Running == h.phase # "Dropped"
 A == Ordinary(h)
@@ -211,12 +250,6 @@ Bounded == MaxOps = 0 \/ Len(hist) <= MaxOps
 (***************************************************************************)
 (* Structural invariants: WHY the properties hold.                         *)
 (***************************************************************************)
-RECURSIVE Chain(_, _, _)
-Chain(s, o, n) == IF o = NoObj \/ n = 0 THEN <<>> ELSE <<o>> \o Chain(s, s.next[o], n - 1)
-ListSeq(s) == Chain(s, s.head, Cardinality(Obj) + 1)
-
-IndexOf(q, x) == IF x \in Range(q) THEN CHOOSE i \in DOMAIN q : q[i] = x ELSE Len(q) + 1
-
 \* the `next` chain from `head` is acyclic and is exactly the set of allocated blocks
 ListWF == LET q == ListSeq(h) IN
   /\ Len(q) = Cardinality(Range(q))
@@ -230,10 +263,6 @@ CursorWF == LET q == ListSeq(h) IN
   THEN /\ h.sweep = NoObj \/ h.sweep \in Range(q)
        /\ LET i == IndexOf(q, h.sweep) IN h.sweepPrev = (IF i = 1 THEN NoObj ELSE q[i - 1])
   ELSE h.sweep = NoObj /\ h.sweepPrev = NoObj
-
-\* the objects the running sweep has not looked at yet
-Unswept(s) == LET q == ListSeq(s) IN
-  IF s.phase = "Sweep" /\ s.sweep # NoObj THEN {q[i] : i \in IndexOf(q, s.sweep)..Len(q)} ELSE {}
 
 \* gray <=> queued, exactly once; queues are empty outside Mark
 GrayQ == LET q == h.gray \o h.grayAgain IN
@@ -408,36 +437,17 @@ EmitLine(tag) == PrintT(<<tag, ToJson([ops |-> hist, final |-> Proj(h)])>>)
 \* one behaviour per distinct state (listed as an INVARIANT; always TRUE)
 EmitStates == Emit = "states" /\ hist # <<>> => EmitLine("BEH")
 
-\* coverage class of a transition
-Col(s, o) == IF o = NoObj THEN "-" ELSE IF ~s.alive[o] THEN "fresh" ELSE s.color[o]
-PosOf(s, o) == IF s.phase # "Sweep" \/ o = NoObj THEN "-" ELSE IF o \in Unswept(s) THEN "unswept" ELSE "swept"
-Fld(op, f) == IF f \in DOMAIN op THEN op[f] ELSE NoObj
-ClassOf(s, op, s2) ==
-  LET p == Fld(op, "p")  c == IF "c" \in DOMAIN op THEN op.c ELSE IF "t" \in DOMAIN op THEN op.t ELSE Fld(op, "o") IN
-  IF op.op \in {"new_set", "remove_set", "stash", "clone_handle", "drop_handle"}
-  THEN LET d == IF "d" \in DOMAIN op THEN op.d
-                ELSE IF "hid" \in DOMAIN op THEN s.handles[op.hid].set ELSE NoObj
-           hv == "hid" \in DOMAIN op /\ op.op # "stash" /\ HandleValid(s, s.handles[op.hid])
-       IN <<op.op, ObsPhase(s), Col(s, d), Col(s, Fld(op, "c")), PosOf(s, d), PosOf(s, Fld(op, "c")), hv,
-            IF d # NoObj /\ s.alive[d] THEN <<s.freeHead[d] # 0, Len(s.slots[d]),
-                                               IF hv THEN s.slots[d][s.handles[op.hid].idx].rc ELSE 0>> ELSE <<>>,
-            d # NoObj /\ d \in Range(s.rootD), s2.grayAgain # s.grayAgain>>
-  ELSE IF op.op \in {"call", "start_sweeping", "finalize", "drop_arena", "failed_map_root", "failed_new"}
-  THEN <<op.op, Fld(op, "kind"), Fld(op, "g"), Fld(op, "cont"), Fld(op, "fault"), ObsPhase(s), ObsPhase(s2),
-         IF op.op = "call" THEN CallSig(s, op.kind, op.b, op.g, op.cont, IF "fault" \in DOMAIN op THEN op.fault ELSE NoFaultRec)
-         ELSE IF op.op \in {"start_sweeping", "finalize"} /\ s.phase # "Sweep"
-              THEN CallSig(s, "finish_marking", 0, "P1", FALSE, NoFaultRec) ELSE <<>>,
-         Count(s) - Count(s2) > 0, s.gray # <<>>, s.grayAgain # <<>>, s.rootNT,
-         IF op.op = "finalize" THEN <<Col(s2, op.t), op.t # NoObj>> ELSE <<>>,
-         Fld(op, "n"), Fld(op, "mode") >>
-  ELSE <<op.op, Fld(op, "path"), Fld(op, "via"), ObsPhase(s), Col(s, p), Col(s, c),
-         IF p = NoObj THEN "-" ELSE s.kind[p], PosOf(s, p), PosOf(s, c), s2.gray # s.gray \/ s2.grayAgain # s.grayAgain,
-         Fld(op, "panic")>>
-
 \* listed as ACTION_CONSTRAINT: prints the first behaviour per class and worker; always TRUE
+\* Emit = "classes": one witness per class of the LAST transition.  Emit = "pairs": one witness per
+\* (class of the previous transition, operation that follows it, whether it touches the same
+\* objects) -- so that the CONSEQUENCES of every class of transition are replayed, not only the
+\* transition itself.
+SameObjs(op1, op2) ==
+  LET objs(op) == {op[f] : f \in DOMAIN op \cap {"p", "c", "t", "o", "d", "c1", "c2", "p1", "p2"}} IN objs(op1) \cap objs(op2) # {}
 EmitClasses ==
-  Emit = "classes" =>
-    LET cl == ClassOf(h, LastOp, h') IN
+  Emit \in {"classes", "pairs"} =>
+    LET cl == IF Emit = "classes" \/ Len(hist) = 0 THEN pcl'
+              ELSE <<pcl, LastOp.op, Fld(LastOp, "kind"), SameObjs(hist[Len(hist)], LastOp), ObsPhase(h')>> IN
     IF cl \in TLCGet(7) THEN TRUE
     ELSE /\ TLCSet(7, TLCGet(7) \cup {cl})
          /\ PrintT(<<"BEH", ToJson([ops |-> hist', final |-> Proj(h'), class |-> cl])>>)
